@@ -14,7 +14,8 @@ NRec == Len(Rec)
 VARIABLES l,        \* position in Rec of the next event to consume
           scripts,  \* tid -> sequence of operations [op, label, len, tok, u64, str]
           abs,      \* tid -> set of data tokens absorbed so far
-          chal,     \* tid -> sequence of challenges drawn [label, wide, inv, absAt]
+          chal,     \* tid -> sequence of challenges drawn [label, pos, tok, absAt]; pos = position of the event in Rec (its 64 bytes as
+                    \* limbs and the claimed inverse stay in the constant Rec: they are not copied into every state)
           rng       \* rid -> [tid, absAt, nops, rekey, ext, fills]
 tvars == <<scripts, abs, chal, rng>>
 
@@ -45,7 +46,7 @@ TChalEv == /\ Is("TChal")
            /\ LET e == Rec[l] IN
               /\ e.tid \in DOMAIN scripts
               /\ scripts' = [scripts EXCEPT ![e.tid] = Append(@, [op |-> "C", label |-> e.label, len |-> e.len, tok |-> e.tok, u64 |-> <<>>, str |-> ""])]
-              /\ chal' = [chal EXCEPT ![e.tid] = Append(@, [label |-> e.label, wide |-> e.wide, inv |-> e.inv, tok |-> e.tok, absAt |-> abs[e.tid]])]
+              /\ chal' = [chal EXCEPT ![e.tid] = Append(@, [label |-> e.label, pos |-> l, tok |-> e.tok, absAt |-> abs[e.tid]])]
            /\ UNCHANGED <<abs, rng>> /\ l' = l + 1
 RBuildEv == /\ Is("RBuild")
             /\ LET e == Rec[l] IN
@@ -66,7 +67,7 @@ RFinalEv == /\ Is("RFinal")
 RFillEv == /\ Is("RFill")
            /\ LET e == Rec[l] IN
               /\ e.rid \in DOMAIN rng /\ rng[e.rid].ext # <<>>
-              /\ rng' = [rng EXCEPT ![e.rid].fills = Append(@, [len |-> e.len, tok |-> e.tok, u64 |-> e.u64, wide |-> e.wide])]
+              /\ rng' = [rng EXCEPT ![e.rid].fills = Append(@, [len |-> e.len, tok |-> e.tok, u64 |-> e.u64, pos |-> l])]
            /\ UNCHANGED <<scripts, abs, chal>> /\ l' = l + 1
 TNext == TNewEv \/ TCloneEv \/ TAppendEv \/ TChalEv \/ RBuildEv \/ RRekeyEv \/ RFinalEv \/ RFillEv
 ====
